@@ -228,6 +228,7 @@ type Input struct {
 	Norm     bool                         `json:"norm"`
 	Follow   bool                         `json:"follow"`
 	Products map[string]map[string]string `json:"products,omitempty"` // match: link products as alg -> "alg:bytes" tags
+	Repeat   int                          `json:"repeat,omitempty"`   // extra runs of the implementation: the result must not depend on map order
 	Big      bool                         `json:"big,omitempty"`      // contains files whose model evaluation needs a deep stack
 }
 
@@ -1806,6 +1807,148 @@ func genHistory(r *lib.Rng, call string) (*Input, string) {
 	return in, "history-" + call + "-" + mode
 }
 
+// ---- names a "normaliser" might touch: backslashes, trailing dot or space, colon, case twins, NFC/NFD twins ----
+// On Unix these are ordinary bytes of a file name; every file keeps its own name.
+
+var oddTwins = [][]string{
+	{"README", "readme"}, {"Caf\u00e9", "Cafe\u0301"}, {"a.", "a"}, {"a ", "a"}, {"a:b", "a"}, {"x\\y", "x"}, {"\\", "f"},
+	{"f\\", "f"}, {"\\f", "f"}, {"a\\\\b", "a\\b"}, {"t\\g", "t/g"},
+}
+
+func genOddNames(r *lib.Rng, fixed int) (*Input, string) {
+	mk := func(name, c string) *Node { return &Node{Kind: "file", Name: name, Content: []byte(c)} }
+	dir := func(name string, ch ...*Node) *Node { return &Node{Kind: "dir", Name: name, Children: ch} }
+	klass := "oddnames"
+	var root *Node
+	shape := r.Intn(4)
+	if fixed > 0 {
+		shape = fixed - 1
+	}
+	switch shape {
+	case 0:
+		// a file named d\f next to d/f
+		d := r.Pick([]string{"d", "pkg", "sub"})
+		f := r.Pick([]string{"f", "foo.py"})
+		if fixed > 0 {
+			d, f = "pkg", "foo.py"
+		}
+		root = dir("", dir(d, mk(f, "in the directory")), mk(d+"\\"+f, "backslash in the name"))
+		klass = "oddnames-backslash-pair"
+	case 1:
+		// a/b/c, a file named a\b\c, and a directory named a\b holding c
+		root = dir("", dir("a", dir("b", mk("c", "one"))), mk("a\\b\\c", "two"), dir("a\\b", mk("c", "three")))
+		if r.Bool() {
+			root.Children = append(root.Children, dir("a\\", mk("b\\c", "four")), mk("\\", "five"))
+		}
+		klass = "oddnames-backslash-triple"
+	default:
+		budget := r.Range(3, 9)
+		root = genDir(r, "", 0, &budget)
+		assignTargets(r, root, false)
+		var all []located
+		root.all(nil, &all)
+		var dirs []*Node
+		for _, l := range all {
+			if l.n.Kind == "link" {
+				l.n.Kind, l.n.Content, l.n.Target = "file", []byte("plain"), ""
+			}
+			if l.n.Kind == "dir" {
+				dirs = append(dirs, l.n)
+			}
+		}
+		n := r.Range(1, 3)
+		for i := 0; i < n; i++ {
+			d := dirs[r.Intn(len(dirs))]
+			tw := oddTwins[r.Intn(len(oddTwins))]
+			for j, nm := range tw {
+				if strings.Contains(nm, "/") { // "t/g": a directory t with g
+					parts := strings.SplitN(nm, "/", 2)
+					if d.child(parts[0]) == nil {
+						d.Children = append(d.Children, dir(parts[0], mk(parts[1], fmt.Sprintf("twin%d%d", i, j))))
+					}
+					continue
+				}
+				if d.child(nm) == nil {
+					d.Children = append(d.Children, mk(nm, fmt.Sprintf("twin%d%d", i, j)))
+				}
+			}
+		}
+		if r.Chance(1, 3) { // a link whose target has a backslash in its name
+			root.Children = append(root.Children, mk("t\\x", "target"))
+			if root.child("lnk") == nil {
+				root.Children = append(root.Children, &Node{Kind: "link", Name: "lnk", Target: "t\\x"})
+			}
+		}
+	}
+	root.sortRec()
+	in := &Input{Call: "record", Tree: root, Paths: []string{"."}, Algs: algChoices[r.Intn(7)], Norm: r.Bool(), Follow: r.Bool(), Repeat: 4}
+	if fixed == 0 {
+		switch r.Intn(6) {
+		case 0:
+			in.Strips = []string{"a\\"}
+		case 1:
+			in.Strips = []string{"d/", "d\\"}
+		case 2:
+			in.Strips = treeStrips(r, root)
+		}
+		if r.Chance(1, 4) {
+			var tops []string
+			for _, c := range root.Children {
+				tops = append(tops, c.Name)
+			}
+			r.Shuffle(len(tops), func(i, j int) { tops[i], tops[j] = tops[j], tops[i] })
+			in.Paths = tops[:r.Range(1, len(tops))]
+		}
+		switch r.Intn(8) {
+		case 0:
+			in.Call = "run"
+		case 1:
+			in.Call = "startstop"
+		case 2, 3:
+			in.Call = "match"
+		}
+	}
+	switch in.Call {
+	case "run", "startstop":
+		in.Paths2 = in.Paths
+		in.Ops = genOps(r, root)
+		// the command also creates a backslash-named file next to an existing path
+		if d := root.child("d"); d != nil && d.Kind == "dir" && root.child("d\\new") == nil {
+			in.Ops = append(in.Ops, Op{Kind: "write", Path: "d\\new", Content: []byte("made")}, Op{Kind: "write", Path: "d/new", Content: []byte("made too")})
+		}
+		in.After = applyOps(root, in.Ops)
+	case "match":
+		in.Norm, in.Follow = false, false
+		if len(in.Paths) == 1 && in.Paths[0] == "." && r.Bool() {
+			in.Paths = []string{}
+		}
+		paths := in.Paths
+		if len(paths) == 0 {
+			paths = []string{"."}
+		}
+		in.Products = map[string]map[string]string{}
+		if local, st := oracleRecord(root, in, paths, in.Excl, in.Strips, false, false, false); st != "" && st != "ERR" {
+			for _, k := range lib.SortedKeys(local) {
+				h := map[string]string{}
+				for a, v := range local[k] {
+					h[a] = v
+				}
+				switch r.Intn(5) {
+				case 0:
+					continue
+				case 1:
+					for a := range h {
+						h[a] = tagOf(a, []byte("changed"))
+						break
+					}
+				}
+				in.Products[k] = h
+			}
+		}
+	}
+	return in, klass + ":" + in.Call
+}
+
 func genRun(r *lib.Rng, call string) (*Input, string) {
 	budget := r.Range(4, 12)
 	root := genDir(r, "", 0, &budget)
@@ -1936,6 +2079,10 @@ func genCase(r *lib.Rng, i int) (*Input, string) {
 		return genUnclean(r, i == 4)
 	case i >= 6 && i <= 9:
 		return genHistory(r, []string{"rerecord", "run", "startstop", "rematch"}[i-6])
+	case i == 10 || i == 11:
+		return genOddNames(r, i-9)
+	case k >= 66 && k < 72:
+		return genOddNames(r, 0)
 	case k >= 76 && k < 82:
 		return genHistory(r, "")
 	case k >= 96:
@@ -2029,6 +2176,12 @@ func main() {
 			in, klass := genCase(r.Fork(), i)
 			normalise(in)
 			impl := runImpl(in)
+			for k := 0; k < in.Repeat; k++ {
+				if again := runImpl(in); again != impl {
+					impl = "NOT-DETERMINISTIC: " + impl + " | " + again
+					break
+				}
+			}
 			w.Put(lib.Case{Klass: klass, Input: lib.MustJSON(in), Impl: impl, Oracle: oracleOf(in, impl),
 				CoqModel: coqModel(in), Trivial: isTrivial(in, impl)})
 		}
